@@ -3,6 +3,7 @@
 //   ledger (C11): repeated allocate-everything / free-everything rounds; mappings and residency must not creep
 //   purge  (C18): delayed purging under a virtual clock
 #include "seq.hpp"
+#include <cctype>
 #include <thread>
 #include <atomic>
 #include <algorithm>
@@ -31,9 +32,20 @@ static long arena_inuse_blocks() {
   mi_register_output(&capture_out, nullptr);
   mi_debug_show_arenas();
   mi_register_output(&vf_output_cb, nullptr);
-  size_t pos = g_capture.rfind("total inuse blocks");
+  // the last line that speaks of blocks "inuse" / "in use" and the last number on it (robust against rewording of the diagnostic, see DESIGN.md 7.4)
   long n = -1;
-  if (pos != std::string::npos) { size_t c = g_capture.find(':', pos); if (c != std::string::npos) n = strtol(g_capture.c_str() + c + 1, nullptr, 10); }
+  {
+    std::string low = g_capture; for (auto& ch : low) ch = (char)tolower((unsigned char)ch);
+    size_t pos = std::string::npos, p1 = low.rfind("inuse"), p2 = low.rfind("in use");
+    if (p1 != std::string::npos) pos = p1;
+    if (p2 != std::string::npos && (pos == std::string::npos || p2 > pos)) pos = p2;
+    if (pos != std::string::npos) {
+      size_t eol = low.find('\n', pos); if (eol == std::string::npos) eol = low.size();
+      size_t e = eol; while (e > pos && !isdigit((unsigned char)low[e - 1])) e--;
+      size_t b = e; while (b > pos && isdigit((unsigned char)low[b - 1])) b--;
+      if (e > b) n = strtol(low.c_str() + b, nullptr, 10);
+    }
+  }
   g_capture.clear();
   return n;
 }
